@@ -120,7 +120,7 @@ impl Leg for Python {
         v.class_if(seq.iter().any(|&b| b >= 0x80), "non-ascii");
         v.nontrivial = !want.is_empty() && (c.k >= 16 || seq.iter().any(|&b| !model::is_base(b)));
         match crate::pyworker::ask(&serde_json::json!({"op": "kmers", "k": c.k, "seq": crate::pyworker::hex(&seq)})).and_then(|r| parse_tuples_u64(&r, 2)) {
-            Err(e) => v.fail("python-worker", e),
+            Err(e) => crate::pyworker::record_error(&mut v, e),
             Ok(got) => {
                 let w: Vec<Vec<u64>> = want.iter().map(|x| vec![x.1, x.2]).collect();
                 if got != w {
@@ -138,6 +138,7 @@ pub fn run(ctx: &mut Ctx) {
     ctx.run_leg::<Python>(n, false, 1000);
     let n = ctx.share(ctx.tier.pick(200_000, 4_000_000));
     ctx.run_leg::<Iter>(n, false, 4000);
+    crate::pyworker::infra_inconclusive(ctx);
 }
 
 pub fn replay(leg: &str, case: &serde_json::Value) -> Option<Result<Verdict, String>> {
